@@ -36,6 +36,10 @@ class ConclusionSelector(LogicalOperator, ABC):
             self._conclusion_.update(conclusions)
             self.concluded_before[not self._is_false_].add(required_output)
 
+    def _reset_only_my_cache_(self) -> None:
+        super()._reset_only_my_cache_()
+        self.concluded_before = {True: SeenSet(), False: SeenSet()}
+
     def _copy_expression_(self, postfix: str) -> SymbolicExpression:
         cp = super()._copy_expression_(postfix)
         cp.concluded_before = {True: SeenSet(), False: SeenSet()}
@@ -112,7 +116,6 @@ class ExceptIf(ConclusionSelector):
                 output.update(right_value)
                 yield output
                 self._conclusion_.clear()
-            self.mark_cache_covered(left_value, self.right_cache)
             if not right_yielded:
                 self._conclusion_.update(self.left._conclusion_)
                 yield left_value
@@ -137,7 +140,9 @@ class Alternative(ElseIf, ConclusionSelector):
         outputs = super()._evaluate__(sources, yield_when_false=yield_when_false)
         for output in outputs:
             left_is_true = not self.left._is_false_
-            right_is_true = not self.right._is_false_
+            # the truth value of the right branch is the one of this node when the left branch is false, the right node
+            # itself is not evaluated (and its flag is stale) when the output comes from the cache.
+            right_is_true = not left_is_true and not self._is_false_
             if left_is_true:
                 self.update_conclusion(output, self.left._conclusion_)
             elif right_is_true:
